@@ -74,6 +74,12 @@ def universes_c08():
         E("dd", "A", 5, 40, [["e", "dA"]]),
         E("dC", "C", 5, 50, [["e", "n1"], ["e", "nb"], ["e", "dA"]]),
     ]
+    # deletions that reference nothing deletable by id: no tags, an `a` coordinate, a bare e tag, a p tag only
+    us["delnone"] = [
+        E("n1", "A", 1, 10), E("n2", "A", 1, 20), E("r1", "A", 30000, 15, [["d", "x"]]), E("nb", "B", 1, 10),
+        E("d0", "A", 5, 50), E("da", "A", 5, 51, [["a", "acoord"]]), E("de", "A", 5, 52, [["e"]]), E("dp", "A", 5, 53, [["p", "B"]]),
+        E("dm", "A", 5, 54, [["e"], ["e", "n1"]]),
+    ]
     us["delmix"] = [
         E("r1", "A", 10000, 10), E("p1", "A", 30000, 10, [["d", "a"]]), E("n1", "A", 1, 10), E("nb", "B", 1, 10),
         E("d1", "A", 5, 20, [["e", "r1"], ["e", "p1"]]),
@@ -99,6 +105,8 @@ def universes_c17():
         E("x16", "A", 1, 13, [["expiration", "t16"]]), E("xfar", "B", 1, 14, [["expiration", "t900000"]]),
         E("xbad", "B", 1, 15, [["expiration", "soon"]]),
         E("xe", "B", 20001, 16, [["expiration", "t900000"]]),
+        E("x2", "A", 1, 17, [["expiration", "t13"], ["expiration", "t14"]]),       # two expiration tags, both past at every pass
+        E("x3", "B", 1, 18, [["expiration", "t800000"], ["expiration", "t900000"]]),
     ]
     # expiration values whose digit count differs from the clock's, a leading zero, an integer-typed value
     us["gcdigits"] = [
@@ -258,6 +266,7 @@ def _forge_sig(ev, uni):
 
 
 SYMTABS = {"dunicode": {"uml": "\u00e4", "umlx": "\u00e4x"},
+           "delnone": {"acoord": "30000:%s:x" % C.pubkey("A")},
            "verbatim": {"sp": " a ", "up": "ABCDEF", "num": "007", "nfc": "\u00e9", "nfd": "e\u0301"},
            "gcdigits": {"v999": "999", "vbig": "17000000150", "vz14": "01700000014", "vi14": 1700000014, "vneg": "0abc"}}
 
